@@ -599,7 +599,8 @@ SIZE_B = ('20%', '512M', '1024M')
 
 def existing_menu(tier):
     """Entries an existing reservation is drawn from."""
-    traits = [[], ['gpu'], ['ssd'], ['gpu', 'ssd'], ['x']]
+    # ['x', 'gpu']: an unlimited trait listed BEFORE a limited one
+    traits = [[], ['gpu'], ['ssd'], ['gpu', 'ssd'], ['x'], ['x', 'gpu']]
     if tier == 'thorough':
         traits += [['gpu', 'x'], ['x', 'ssd'], ['ssd', 'x', 'gpu']]
     menu = []
